@@ -5,6 +5,8 @@ use std::sync::Mutex;
 
 /// Number of `opcodes_car_weight` calls on non-empty input.
 pub static CAR_WEIGHT_CALLS: AtomicU64 = AtomicU64::new(0);
+/// Number of steps made by the passes of `opcodes_weight`.
+pub static WEIGH_PASS_STEPS: AtomicU64 = AtomicU64::new(0);
 /// Number of bytes materialised out of ropes by the executor.
 pub static BYTES_MATERIALISED: AtomicU64 = AtomicU64::new(0);
 
@@ -29,11 +31,16 @@ pub fn take_log() -> Vec<OracleCall> {
 
 pub fn reset_counters() {
     CAR_WEIGHT_CALLS.store(0, Ordering::SeqCst);
+    WEIGH_PASS_STEPS.store(0, Ordering::SeqCst);
     BYTES_MATERIALISED.store(0, Ordering::SeqCst);
 }
 
 pub fn car_weight_calls() -> u64 {
     CAR_WEIGHT_CALLS.load(Ordering::SeqCst)
+}
+
+pub fn weigh_pass_steps() -> u64 {
+    WEIGH_PASS_STEPS.load(Ordering::SeqCst)
 }
 
 pub fn bytes_materialised() -> u64 {
